@@ -43,7 +43,8 @@ BOUND = (
     'assignment resp. x every partition, 1119 + 896) with the other attributes cycled, plus seeded random engines (300 quick / 10^4 thorough); '
     'directed part (both tiers, enumerated): every non-empty DAG x partition with 2-3 algorithms (37) with names that are string prefixes '
     'of one another (algorithms cal/cal_fit/cal_fit_x, alternately also packages t/t1/t12, state vectors s/s1, values v/v1), and every '
-    '3-algorithm DAG x partition (40) with two feedback references from different consumers (thorough: + the 64 4-algorithm DAGs of each kind)'
+    '3-algorithm DAG x partition (40) with two feedback references from different consumers (thorough: + the 64 4-algorithm DAGs of each kind), '
+    'and every 2-3 algorithm DAG (thorough: + 4) with ONE algorithm name used by all packages, with one and with two feedback references'
 )
 CLAUSES = [
     'C09.construct',
@@ -265,6 +266,13 @@ def cases(tier, seed):
         for k, edges in enumerate(G.dags(n)):
             for parts in pn if n < 4 else [pn[k % len(pn)]]:
                 out.append(('enum', _cycled(idx, edges, parts, two_feedbacks=True)))
+                idx += 1
+    # directed: the same algorithm name in every package (identity is package.algorithm), one and two feedback references
+    for n in (2, 3, 4) if tier == 'thorough' else (2, 3):
+        parts = list(range(n))
+        for k, edges in enumerate(G.dags(n)):
+            for two in (False, True):
+                out.append(('enum', _cycled(idx, edges, parts, names=G.NAMESETS['same-alg'], two_feedbacks=two)))
                 idx += 1
     n_enum = len(out)
     total = 10000 if tier == 'thorough' else n_enum + 300
